@@ -3482,7 +3482,7 @@ def py_implied(expr, func):
         expr - string expression
         func - declast.FunctionNode
     """
-    node = declast.ExprParser(expr).expression()
+    node = declast.check_expr(expr)
     visitor = ToImplied(expr, func)
     return visitor.visit(node)
 
